@@ -9,7 +9,7 @@ from sim.core import Violation
 from sim.snap import norm, norm_list, snap_index, first_diff, arr_cells
 from worlds.base import SimulatedFailure, enc, dec, call
 from worlds.gmodel import IxM, is_go, unhashable, expected_index_snap, learn_index, is_tree_order
-from worlds.grow_index import raw_duplicates
+from worlds.grow_index import raw_duplicates, unorderable_mix
 
 LEVEL_POOLS = {
     'str': ['a', 'b', 'c', 'd'],
@@ -639,6 +639,9 @@ class HierOps:
             return 'raise:' + type(r).__name__
         if not isinstance(r, IndexBase):
             return 'not-index'
+        if how in ('union', 'intersection') and unorderable_mix(r):
+            self.stats['derive-not-followed:hash-seed-dependent-order'] += 1
+            return 'unordered-result'  # set order of unorderable labels depends on the interpreter's hash seed
         self.stats['derive:' + how] += 1
         return self.adopt_index(r, op['out'], f'{m.cls}.{how}', op)
 
